@@ -102,3 +102,45 @@ def div_jobs(chk, tier, seed, rng):
                      "patterns": [L], "expects": [verdict[r["t"]]["ok"]]})
     chk.extra["scale_up_labelings (objects with more than 256 vertices)"] = len(recs)
     return jobs
+
+
+def group_jobs(chk, tier, seed, rng):
+    """C07: division_connected_variable_groups on boards with more than 16 cells (3x6, 4x5): a few hand-shaped partitions,
+    with and without per-cell sizes; the verdict comes from Trace_Patterns (mode "parts")"""
+    recs = []
+    for (h, w) in ([(3, 6)] if tier == "quick" else [(3, 6), (4, 5), (6, 3), (2, 9)]):
+        n = h * w
+        cell = lambda y, x: y * w + x
+        parts = []
+        tromino = {cell(0, 1), cell(1, 1), cell(1, 0)}
+        parts.append([0 if c in tromino else 1 if c == cell(0, 0) else 2 for c in range(n)])      # L-tromino, a single, the rest
+        parts.append([c // w for c in range(n)])                                                     # the rows
+        parts.append([c % w for c in range(n)])                                                      # the columns
+        parts.append([0] * n)                                                                        # one block
+        parts.append(list(range(n)))                                                                 # all singles
+        parts.append([0 if c in (cell(0, 0), cell(h - 1, w - 1)) else 1 for c in range(n)])         # a disconnected block
+        snake = [0 if (c // w) % 2 == 0 or c % w == (w - 1 if (c // w) % 4 == 1 else 0) else 1 for c in range(n)]
+        parts.append(snake)
+        for rgs in parts:
+            # restricted-growth renumbering (blocks numbered by first occurrence)
+            ren, out = {}, []
+            for b in rgs:
+                ren.setdefault(b, len(ren))
+                out.append(ren[b])
+            size_of = {b: out.count(b) for b in set(out)}
+            true_sizes = [size_of[b] for b in out]
+            for sizes in ([-1] * n,
+                          [true_sizes[c] if c % 4 == 0 else -1 for c in range(n)],
+                          [(true_sizes[c] + (1 if c == n - 1 else 0)) if c % 5 == 0 or c == n - 1 else -1 for c in range(n)]):
+                recs.append({"kind": "parts", "h": h, "w": w, "rgs": out, "sizes": sizes})
+    verdict = judge(chk, recs, "scaleup_groups")
+    jobs = []
+    for r in recs:
+        h, w = r["h"], r["w"]
+        n = h * w
+        obj = {"kind": "grid", "name": "scale-up", "h": h, "w": w, "graph": {"n": n, "edges": grid_edges(h, w)}}
+        allnone = all(x < 0 for x in r["sizes"])
+        jobs.append({"obj": obj, "id": 70000 + r["t"], "flip": 0, "sizekind": "none" if allnone else "list", "sizes": r["sizes"],
+                     "form": ["list", "array"][r["t"] % 2], "parts": [r["rgs"]], "expects": [verdict[r["t"]]["ok"]]})
+    chk.extra["scale_up_partitions (boards with more than 16 cells)"] = len(recs)
+    return jobs
